@@ -730,7 +730,33 @@ def subst(e, pmap, upmap=None):
         return pmap[e[1]]
     if e and e[0] == "upvar" and upmap and e[1] in upmap:
         return upmap[e[1]]
+    if e and e[0] == "field" and len(e) == 3 and upmap:
+        pc = _precise_capture(e, upmap)
+        if pc is not None:
+            return pc
     return tuple(subst(x, pmap, upmap) if isinstance(x, tuple) else x for x in e)
+
+
+def _precise_capture(e, upmap):
+    """a field chain of an upvar that was captured field by field (mir.mk_upvar): the captured place's expression"""
+    chain = []
+    x = e
+    while x[0] == "field" and len(x) == 3:
+        chain.append(x[2])
+        x = x[1]
+    if x[0] != "upvar":
+        return None
+    chain.reverse()
+    for n in range(len(chain), 0, -1):
+        nm = x[1] + "__" + "__".join(chain[:n])
+        alt = ("_ref__" + nm) if not nm.startswith("_ref__") else nm[len("_ref__"):]
+        for cand in (nm, alt):
+            if cand in upmap:
+                out = upmap[cand]
+                for f in chain[n:]:
+                    out = mir.mk_field(out, f)
+                return out
+    return None
 
 
 def subst_simplify(e, pmap, upmap=None):
@@ -742,6 +768,10 @@ def subst_simplify(e, pmap, upmap=None):
         return pmap[e[1]]
     if e and e[0] == "upvar" and upmap and e[1] in upmap:
         return upmap[e[1]]
+    if e and e[0] == "field" and len(e) == 3 and upmap:
+        pc = _precise_capture(e, upmap)
+        if pc is not None:
+            return pc
     if e and e[0] == "field" and len(e) == 3:
         return mir.mk_field(subst_simplify(e[1], pmap, upmap), e[2])
     if e and e[0] == "vfield" and len(e) == 4:
@@ -772,9 +802,19 @@ def local_calls(prog, e):
 # ------------------------------------------------------------------ predicates as conjunctions of atoms
 def canon_cmp(op, L, R):
     """canonical (op, sigL, sigR): only Lt/Le/Eq/Ne; Eq/Ne operands sorted"""
-    a, b = sig(L), sig(R)
     if op in ("Gt", "Ge"):
-        op, a, b = SWAP[op], b, a
+        op, L, R = SWAP[op], R, L
+    # unsigned comparisons with 0 / 1 are (in)equalities with 0: `x > 0` is `x != 0`, `x < 1` and `x <= 0` are `x == 0`, `x >= 1` is `x != 0`
+    uns = lambda k: isinstance(k, tuple) and k[0] == "const" and isinstance(k[1], str) and k[1] in ("u8", "u16", "u32", "u64", "u128", "usize") and isinstance(k[2], int)
+    if op == "Lt" and uns(L) and L[2] == 0:
+        op, L, R = "Ne", L, R
+    elif op == "Le" and uns(R) and R[2] == 0:
+        op = "Eq"
+    elif op == "Lt" and uns(R) and R[2] == 1:
+        op, R = "Eq", ("const", R[1], 0)
+    elif op == "Le" and uns(L) and L[2] == 1:
+        op, L = "Ne", ("const", L[1], 0)
+    a, b = sig(L), sig(R)
     if op in ("Eq", "Ne") and b < a:
         a, b = b, a
     return "%s(%s, %s)" % (op, a, b)
@@ -852,6 +892,42 @@ def variant_atoms(body):
                 e = ("isvar", x, int(val), mir.norm_name(ty), nm)        # int(val): the discriminant value the switch compares with
                 out.append((e, canon_cmp("Eq", x, ("agg", mir.norm_name(ty), nm, ())), bi))
     return out
+
+
+OPTION_PREFIXES = ("std::option::Option<", "core::option::Option<")
+
+
+def presence_tests(body, pred):
+    """every test of the presence of an Option value x with pred(sig(x)): `x.is_none()`, `x.is_some()`, and `match x` / `if let` / `matches!`
+    (a switch on x's discriminant).  Returns (absent, present): two forcing tables (atom -> 0/1) that say "x is None" / "x is Some" for all of them."""
+    absent, present = {}, {}
+    for nm, none_val in (("Option::is_none", 1), ("Option::is_some", 0)):
+        for cb, x in call_exprs(body, nm):
+            if x[2] and pred(sig(x[2][0])):
+                absent[x] = none_val
+                present[x] = 1 - none_val
+    for bi, t in body.iter_terms("switch"):
+        op = t["discr"]
+        if op.get("k") not in ("move", "copy") or op["place"]["p"]:
+            continue
+        ds = body.defs().get(op["place"]["l"], [])
+        if len(ds) != 1 or ds[0][1] == "T":
+            continue
+        st = body.blocks[ds[0][0]]["stmts"][ds[0][1]]
+        if st["rv"].get("k") != "discr":
+            continue
+        ty = (body._place_type(st["rv"]["place"]) or "").lstrip("&").replace("mut ", "")
+        if not ty.startswith(OPTION_PREFIXES):
+            continue
+        x = body.rec_place(st["rv"]["place"], ds[0][0], ds[0][1])
+        if not pred(sig(x)):
+            continue
+        nty = mir.norm_name(ty)
+        for val, name in ((0, "None"), (1, "Some")):
+            a = ("isvar", x, val, nty, name)
+            absent[a] = 1 if name == "None" else 0
+            present[a] = 0 if name == "None" else 1
+    return absent, present
 
 
 def _cmp_atoms(body):
@@ -1037,15 +1113,17 @@ def sum_over(prog, body, e, batch="$3"):
     e = mir.strip(e)
     if e[0] == "call" and e[1].split("::")[-1] in ("fold", "sum") and e[2] and is_call(mir.strip(e[2][0]), "Iterator::map"):
         m = mir.strip(e[2][0])
-        if sig(mir.strip(m[2][0])) != batch or mir.strip(m[2][1])[0] != "closure":
+        fk = mir.strip(m[2][1])
+        if sig(mir.strip(m[2][0])) != batch or fk[0] not in ("closure", "fn"):
             return None
         if e[1].split("::")[-1] == "fold" and not (const_val(e[2][1]) == 0 and is_add_op(prog, e[2][2])):
             return None
-        mc = prog.body(mir.strip(m[2][1])[1])
+        mc = prog.body(fk[1])
         rr = ret_assignments(mc) if mc is not None else []
         if len(rr) != 1:
             return None
-        return sig(novers(rr[0][2])).replace("$2", "@")
+        # a closure's element is its 2nd parameter (the 1st is its environment); `.map(f)` with a named function: its 1st
+        return sig(novers(rr[0][2])).replace("$2" if fk[0] == "closure" else "$1", "@")
     if e[0] == "phi" and len(e[1]) == 2:
         z = [a for a in e[1] if const_val(a) == 0]
         u = [a for a in e[1] if const_val(a) is None]
